@@ -41,6 +41,8 @@ type c08Case struct {
 	//     render time), rendered (fails), then given the real key pair;
 	//  2: WriteToSkipMiddleware is called once before every judged render;
 	//  3: after the first judged render a text/html alternative is added (later renders must sign the larger message);
+	//  5: signed through SignWithTLSCertificate with a *tls.Certificate (Leaf unset) that the caller renews IN PLACE after the
+	//     first judged render (other key pair in the same object) and hands to SignWithTLSCertificate again;
 	//  4: after the first judged render the message is re-keyed with the OTHER key type (later renders must carry
 	//     and verify under the new certificate)
 	Hist int `json:"hist,omitempty"`
@@ -51,6 +53,11 @@ func c08Exec(r *vf.Run, k c08Case) []finding {
 	add := func(key, f string, a ...interface{}) { out = append(out, finding{key, fmt.Sprintf(f, a...)}) }
 	bspec := k.Spec
 	k.Spec = k.Spec.Effective() // what the renderings are judged against
+	var renewed *tls.Certificate
+	if k.Hist == 5 {
+		bspec.SMIME = 0
+		k.Spec.Inter = false // the caller's certificate object carries the leaf only
+	}
 	if k.PreRenders > 0 {
 		bspec.SMIME = 0
 	}
@@ -75,6 +82,15 @@ func c08Exec(r *vf.Run, k c08Case) []finding {
 		}
 		if err := m.SignWithKeypair(kp.PrivateKey, kp.Leaf, inter); err != nil {
 			r.HarnessError("C08 SignWithKeypair: %v", err)
+			return nil
+		}
+	}
+	if k.Hist == 5 {
+		// the caller keeps ONE *tls.Certificate (Leaf not set) and renews it in place later on
+		kp := c08Key(k.Spec.SMIME)
+		renewed = &tls.Certificate{Certificate: [][]byte{kp.Certificate[0]}, PrivateKey: kp.PrivateKey}
+		if err := m.SignWithTLSCertificate(renewed); err != nil {
+			r.HarnessError("C08 SignWithTLSCertificate: %v", err)
 			return nil
 		}
 	}
@@ -135,6 +151,24 @@ func c08Exec(r *vf.Run, k c08Case) []finding {
 				m.AddAlternativeString(mail.TypeTextHTML, string(added.Content))
 			}
 			k.Spec.Parts = append(append([]mb.Part{}, k.Spec.Parts...), added)
+		case k.Hist == 5 && ri == 1:
+			// the certificate was renewed: the same object now holds the other key pair, and the message is signed with it again
+			mat := hx.Mat()
+			kp := mat.SignECDSA
+			if k.Spec.SMIME >= 2 {
+				kp = mat.SignRSA
+			}
+			renewed.Certificate = [][]byte{kp.Certificate[0]}
+			renewed.PrivateKey = kp.PrivateKey
+			if err := m.SignWithTLSCertificate(renewed); err != nil {
+				r.HarnessError("C08 SignWithTLSCertificate (renewed): %v", err)
+				return nil
+			}
+			if k.Spec.SMIME >= 2 {
+				k.Spec.SMIME = 1
+			} else {
+				k.Spec.SMIME = 2
+			}
 		case k.Hist == 4 && ri == 1:
 			mat := hx.Mat()
 			kp := mat.SignECDSA
@@ -453,7 +487,7 @@ func c08Specs(thorough bool) []c08Case {
 									}
 								}
 								if thorough || n%4 == 0 || mod == "none" {
-									for h := 1; h <= 4; h++ {
+									for h := 1; h <= 5; h++ {
 										cs = append(cs, c08Case{Spec: v, Renders: 3, Ks: []int{0, 0, 0}, Mod: mod, Hist: h})
 									}
 								}
@@ -482,7 +516,7 @@ func init() {
 				r.Incomplete("runtime map-iteration seam not available: map order is sampled")
 			}
 			if r.Fork(r.Workers) {
-				r.Reached("reached/verified/hist=0/signapi=0", "reached/verified/hist=1/signapi=0", "reached/verified/hist=2/signapi=0", "reached/verified/hist=3/signapi=0", "reached/verified/hist=4/signapi=0", "reached/verified/hist=0/signapi=1", "reached/verified/hist=0/signapi=2", "reached/verified/hist=0/signapi=3", "reached/verified/hist=0/signapi=4", "reached/verified/signed-after-unsigned-renders", "reached/verified/after-failed-render", "reached/verified/map-order-switch", "reached/verified/key-kind=1", "reached/verified/key-kind=2", "reached/verified/key-kind=3", "reached/verified/key-kind=4", "reached/verified/key-kind=5", "reached/verified/caller-fixed-boundary", "reached/verified/middleware=1", "reached/verified/middleware=2", "reached/verified/middleware=3")
+				r.Reached("reached/verified/hist=0/signapi=0", "reached/verified/hist=1/signapi=0", "reached/verified/hist=2/signapi=0", "reached/verified/hist=3/signapi=0", "reached/verified/hist=4/signapi=0", "reached/verified/hist=5/signapi=0", "reached/verified/hist=0/signapi=1", "reached/verified/hist=0/signapi=2", "reached/verified/hist=0/signapi=3", "reached/verified/hist=0/signapi=4", "reached/verified/signed-after-unsigned-renders", "reached/verified/after-failed-render", "reached/verified/map-order-switch", "reached/verified/key-kind=1", "reached/verified/key-kind=2", "reached/verified/key-kind=3", "reached/verified/key-kind=4", "reached/verified/key-kind=5", "reached/verified/caller-fixed-boundary", "reached/verified/middleware=1", "reached/verified/middleware=2", "reached/verified/middleware=3")
 				return
 			}
 			cases := c08Specs(r.Thorough)
